@@ -7,18 +7,22 @@ from ..rt import helper_loop, statement_dispatch
 from ..lib import library_functions
 
 EXPLANATION = (
-    'The budget is one integer under one key of one dict threaded through every nested execution. C09.D: in the '
-    'statement loop the read-modify-write increment options[statementCount] += 1 and the limit test dominate the '
-    'statement dispatch (CFG dominance) and occur once per iteration. C09.T: the abort condition is evaluated over the '
-    'finite abstraction (limit zero/positive) x (count <, =, > limit) and must be true exactly for limit > 0 and '
-    'count > limit; its true edge raises BareScriptRuntimeError "Exceeded maximum script statements"; the limit comes '
+    'The budget is one integer under one key of one dict threaded through every nested execution. C09.D: the '
+    'straight-line prefix of the statement loop body (before the dispatch) is evaluated symbolically over c0 = counter at '
+    'the start of the statement: after it options[statementCount] must hold c0 + 1, computed from a read made in THIS '
+    'iteration (+= 1, or a local read and stored back at once); a store from a local carried across statements is a '
+    'cached count and is reported; every counter store of the loop lies in that prefix (so it dominates the dispatch). '
+    'C09.T: the abort condition - the conjunction of the (possibly nested) tests guarding the raise, with locals that hold '
+    'the count substituted - is evaluated over the finite abstraction (limit zero/positive) x (count <, =, > limit) and '
+    'must be true exactly for limit > 0 and count > limit; its true edge raises BareScriptRuntimeError "Exceeded maximum script statements"; the limit comes '
     'from options.get(maxStatements, DEFAULT) with a positive default. C09.W: package-wide, the key statementCount is '
     'stored only by the reset to 0 in execute_script, the increment, and write-backs copy -> original. C09.R: the limit '
     'is read only by the test. C09.I: every call that can execute statements (_execute_script_helper, '
     'evaluate_expression, function values) receives the options object itself, or a copy whose counter is written back '
     'in a finally clause covering the call, with no mixing of copy and original in between; library callbacks pass the '
     'enclosing options unchanged. C09.H: the statement-limit error is re-raised by the call wrapper before the '
-    'catch-all. Decides counting completeness/exactness structurally; "effects are a prefix" follows from who-reads and '
+    'catch-all, and no other try whose body (transitively, over resolved callees) executes statements has a first-matching '
+    'handler for BareScriptRuntimeError that absorbs it. Decides counting completeness/exactness structurally; "effects are a prefix" follows from who-reads and '
     'is not observed.')
 ENUMERATION = ('one instance per store of the counter key, per read of the limit, per statement-executing call site '
                '(options identity), per clause of the abort test (6 abstract cases), per library callback call')
@@ -53,89 +57,195 @@ def key_stores(mod):
     return out
 
 
-def check_dominance(chk):
-    mod, func, loop = helper_loop(chk.repo, 'C09.D')
-    _m, _f, _l, key_var, sections, chain = statement_dispatch(chk.repo, 'C09.D')
-    cfg = CFG(func)
-    opt = func.args.args[1].arg if len(func.args.args) > 1 else 'options'
-    incs = [n for n in walk_no_nested(loop) if isinstance(n, ast.AugAssign) and subscript_key(n.target) and subscript_key(n.target)[1] == KEY]
-    if len(incs) != 1:
-        others = [s for s in key_stores(mod) if s[0] == func.name]
-        chk.bad('C09.D', mod, func.name, f'{len(incs)} augmented increments of the counter in the statement loop',
-                'the statement loop must increment options[statementCount] exactly once per statement with a read-modify-write on the shared dict '
-                '(a locally cached count written back later loses statements executed by nested calls)', node=loop)
-        return
-    inc = incs[0]
-    base = norm(subscript_key(inc.target)[0])
-    if not (isinstance(inc.op, ast.Add) and isinstance(inc.value, ast.Constant) and inc.value.value == 1):
-        chk.bad('C09.D', mod, func.name, norm(inc), 'the statement counter must be incremented by exactly 1 per statement', node=inc)
-    elif base != opt:
-        chk.bad('C09.D', mod, func.name, norm(inc), f'the increment is applied to {base}, not to the options object of this invocation ({opt})', node=inc)
-    else:
-        chk.ok('C09.D', f'increment {norm(inc)} on the invocation\'s options object')
-    dom = cfg.dominators(follow=no_exc)
-    inc_node = cfg.node_of(inc)
-    disp = cfg.node_of(chain.test)
-    head = cfg.node_of(loop.test) if isinstance(loop, ast.While) else cfg.node_of(loop)
-    if inc_node is None or disp is None or head is None:
-        raise Unrecognised('C09.D', 'CFG nodes for increment / dispatch / loop head not found', mod.rel)
-    if inc_node in dom.get(disp, set()):
-        chk.ok('C09.D', 'the increment dominates the statement dispatch (every started statement is counted first)')
-    else:
-        chk.bad('C09.D', mod, func.name, 'increment does not dominate the dispatch',
-                'there is a path from the loop head to the execution of a statement that does not pass the counter increment', node=inc)
-    # limit test
-    tests = []
-    for n in walk_no_nested(loop):
-        if isinstance(n, ast.If) and any(isinstance(s, ast.Raise) for s in n.body) and KEY in norm(n.test):
-            tests.append(n)
-    if len(tests) != 1:
-        chk.bad('C09.T', mod, func.name, f'{len(tests)} limit tests in the statement loop',
-                'the statement loop must contain exactly one test of the counter against the limit whose true edge raises', node=loop)
-        return
-    test = tests[0]
-    tnode = cfg.node_of(test.test)
-    if tnode in dom.get(disp, set()) and inc_node in dom.get(tnode, set()):
-        chk.ok('C09.D', 'the limit test lies between the increment and the dispatch on every path')
-    else:
-        chk.bad('C09.D', mod, func.name, 'limit test order',
-                'the limit test must come after the increment and before the statement is dispatched (statement L+1 must not start)', node=test)
-    check_test_form(chk, mod, func, loop, test, opt)
-
-
-def eval_limit_test(e, count_txt, limit_txt, limit_pos, rel):
-    """evaluate the abort condition under limit>0? = limit_pos and count REL limit (rel in lt/eq/gt)"""
-    if isinstance(e, ast.BoolOp):
-        vals = [eval_limit_test(v, count_txt, limit_txt, limit_pos, rel) for v in e.values]
-        return all(vals) if isinstance(e.op, ast.And) else any(vals)
-    if isinstance(e, ast.UnaryOp) and isinstance(e.op, ast.Not):
-        return not eval_limit_test(e.operand, count_txt, limit_txt, limit_pos, rel)
-    if isinstance(e, ast.Name) and e.id == limit_txt:
-        return limit_pos
-    if isinstance(e, ast.Compare) and len(e.ops) == 1:
-        l, r, op = norm(e.left), norm(e.comparators[0]), e.ops[0]
-
-        def cmp(op, ordering):
-            return {ast.Lt: ordering == 'lt', ast.LtE: ordering in ('lt', 'eq'), ast.Gt: ordering == 'gt', ast.GtE: ordering in ('gt', 'eq'),
-                    ast.Eq: ordering == 'eq', ast.NotEq: ordering != 'eq'}.get(type(op))
-        flip = {'lt': 'gt', 'gt': 'lt', 'eq': 'eq'}
-        if (l, r) == (limit_txt, '0'):
-            return cmp(op, 'gt' if limit_pos else 'eq')
-        if (l, r) == ('0', limit_txt):
-            return cmp(op, 'lt' if limit_pos else 'eq')
-        if (l, r) == (count_txt, limit_txt):
-            return cmp(op, rel)
-        if (l, r) == (limit_txt, count_txt):
-            return cmp(op, flip[rel])
-        if l == count_txt and r in (f'{limit_txt} + 1', f'1 + {limit_txt}'):
-            # count vs limit+1 : integer counts
-            return cmp(op, 'lt' if rel in ('lt', 'eq') else ('eq' if rel == 'gt' else 'gt')) if isinstance(op, (ast.GtE, ast.Lt)) else None
-        if l == limit_txt and isinstance(op, (ast.IsNot, ast.Is)) and r == 'None':
-            return True if isinstance(op, ast.IsNot) else False
+def _count_expr(e, env, opt, stored):
+    """symbolic value of an integer expression in one loop iteration: ('c0', k) = counter at iteration start + k; 'stale'; None"""
+    if isinstance(e, ast.Subscript):
+        sk = subscript_key(e)
+        if sk and sk[1] == KEY and norm(sk[0]) == opt:
+            return stored
+        return None
+    if isinstance(e, ast.Name):
+        return env.get(e.id)
+    if isinstance(e, ast.BinOp) and isinstance(e.op, (ast.Add, ast.Sub)):
+        for x, y in ((e.left, e.right), (e.right, e.left)):
+            if isinstance(y, ast.Constant) and isinstance(y.value, int) and not isinstance(y.value, bool) and (isinstance(e.op, ast.Add) or y is e.right):
+                v = _count_expr(x, env, opt, stored)
+                if isinstance(v, tuple):
+                    return ('c0', v[1] + (y.value if isinstance(e.op, ast.Add) else -y.value))
+                return v
     return None
 
 
-def check_test_form(chk, mod, func, loop, test, opt):
+def check_dominance(chk):
+    mod, func, loop = helper_loop(chk.repo, 'C09.D')
+    _m, _f, _l, key_var, sections, chain = statement_dispatch(chk.repo, 'C09.D')
+    opt = func.args.args[1].arg if len(func.args.args) > 1 else 'options'
+    # the dispatch If as a top-level statement of the loop body
+    disp_stmt = chain
+    while getattr(disp_stmt, '_parent', None) is not loop and getattr(disp_stmt, '_parent', None) is not None:
+        disp_stmt = disp_stmt._parent
+    if disp_stmt not in loop.body:
+        raise Unrecognised('C09.D', 'statement dispatch is not a top-level statement of the loop body', mod.rel)
+    prefix = loop.body[:loop.body.index(disp_stmt)]
+    # every store of the counter inside the loop must be in the straight-line prefix
+    def is_writeback(st):
+        _fn, stmt, base, kind, rhs = st
+        return kind == 'assign' and isinstance(rhs, ast.Subscript) and subscript_key(rhs) and subscript_key(rhs)[1] == KEY and norm(subscript_key(rhs)[0]) != base
+    loop_stores = [s for s in key_stores(mod) if s[0] == func.name and _inside(s[1], loop) and not is_writeback(s)]
+    if not loop_stores:
+        chk.bad('C09.D', mod, func.name, 'no increment of the counter in the statement loop', 'the statement loop must increment options[statementCount] once per statement', node=loop)
+        return
+    for _fn, stmt, base, kind, rhs in loop_stores:
+        if stmt not in prefix:
+            if any(_inside(stmt, p) for p in prefix) or _inside(stmt, disp_stmt):
+                chk.bad('C09.D', mod, func.name, f'{norm(stmt)} [conditional / late]',
+                        'the counter is modified conditionally or after the dispatch has begun: there is a path from the loop head to the execution of a statement '
+                        'that does not pass exactly one increment', node=stmt)
+                return
+            raise Unrecognised('C09.D', f'counter store {norm(stmt)} outside the loop prefix', mod.rel)
+    assigned_anywhere = {t.id for n in walk_no_nested(func) for t in (n.targets if isinstance(n, ast.Assign) else [n.target] if isinstance(n, ast.AugAssign) else []) if isinstance(t, ast.Name)}
+    env = {}
+    stored = ('c0', 0)
+    inc_stmts = []
+    abort_roots = []
+    env_at = {}
+    for stmt in prefix:
+        if isinstance(stmt, ast.AugAssign):
+            sk = subscript_key(stmt.target)
+            if sk and sk[1] == KEY:
+                if norm(sk[0]) != opt:
+                    chk.bad('C09.D', mod, func.name, norm(stmt), f'the increment is applied to {norm(sk[0])}, not to the options object of this invocation ({opt})', node=stmt)
+                    return
+                if not (isinstance(stmt.op, ast.Add) and isinstance(stmt.value, ast.Constant) and stmt.value.value == 1 and not isinstance(stmt.value.value, bool)):
+                    chk.bad('C09.D', mod, func.name, norm(stmt), 'the statement counter must be incremented by exactly 1 per statement', node=stmt)
+                    return
+                stored = ('c0', stored[1] + 1) if isinstance(stored, tuple) else stored
+                inc_stmts.append(stmt)
+            elif isinstance(stmt.target, ast.Name):
+                cur = env.get(stmt.target.id, 'stale' if stmt.target.id in assigned_anywhere else None)
+                if isinstance(cur, tuple) and isinstance(stmt.op, ast.Add) and isinstance(stmt.value, ast.Constant) and isinstance(stmt.value.value, int):
+                    env[stmt.target.id] = ('c0', cur[1] + stmt.value.value)
+                else:
+                    env[stmt.target.id] = 'stale' if cur == 'stale' else None
+        elif isinstance(stmt, ast.Assign) and len(stmt.targets) == 1:
+            t = stmt.targets[0]
+            sk = subscript_key(t)
+            if sk and sk[1] == KEY:
+                if norm(sk[0]) != opt:
+                    chk.bad('C09.D', mod, func.name, norm(stmt), f'the counter store is applied to {norm(sk[0])}, not to the options object of this invocation ({opt})', node=stmt)
+                    return
+                v = _count_expr(stmt.value, env, opt, stored)
+                if v is None and isinstance(stmt.value, ast.Name) and stmt.value.id in assigned_anywhere and stmt.value.id not in env:
+                    v = 'stale'
+                if v == 'stale' or (v is None and any(isinstance(x, ast.Name) and env.get(x.id, 'stale' if x.id in assigned_anywhere else None) == 'stale' for x in ast.walk(stmt.value))):
+                    chk.bad('C09.D', mod, func.name, f'{norm(stmt)} [cached count]',
+                            'the counter is overwritten from a local that is carried across statements (read before this statement started): statements executed by nested '
+                            'invocations (function calls, includes, callbacks) since then are forgotten - the increment must be a read-modify-write on the shared dict', node=stmt)
+                    return
+                if v is None:
+                    raise Unrecognised('C09.D', f'counter store {norm(stmt)} not understood', mod.rel)
+                stored = v
+                inc_stmts.append(stmt)
+            elif isinstance(t, ast.Name):
+                env[t.id] = _count_expr(stmt.value, env, opt, stored)
+        elif isinstance(stmt, ast.If) and any(isinstance(x, ast.Raise) for x in ast.walk(stmt)):
+            abort_roots.append(stmt)
+            env_at[id(stmt)] = (dict(env), stored)
+    if stored == ('c0', 1):
+        chk.ok('C09.D', f'the loop prefix stores counter-at-statement-start + 1 into {opt}[statementCount] ({"; ".join(norm(s) for s in inc_stmts)}): read-modify-write within the statement')
+        chk.ok('C09.D', 'the increment is a top-level statement of the loop body before the dispatch (dominates every statement execution)')
+    else:
+        chk.bad('C09.D', mod, func.name, f'counter after the loop prefix = start {stored[1]:+d}' if isinstance(stored, tuple) else f'counter {stored}',
+                'each started statement must add exactly 1 to the counter before it is dispatched', node=inc_stmts[0] if inc_stmts else loop)
+        return
+    chk.c09_inc_stores = {id(s) for s in inc_stmts}
+    # abort test: the raise reached under a conjunction of (possibly nested) tests
+    aborts = []
+    for root in abort_roots:
+        for r in ast.walk(root):
+            if isinstance(r, ast.Raise) and (KEY in norm(root) or 'Exceeded' in norm(r) or LIMIT_KEY in norm(root)):
+                conds = []
+                child, cur = r, getattr(r, '_parent', None)
+                ok = True
+                while cur is not None:
+                    if isinstance(cur, ast.If):
+                        conds.append((cur.test, any(child is s for s in cur.body)))
+                    elif cur is not root and not isinstance(cur, ast.If):
+                        ok = False
+                    if cur is root:
+                        break
+                    child, cur = cur, getattr(cur, '_parent', None)
+                if ok:
+                    aborts.append((root, r, conds))
+    if len(aborts) != 1:
+        chk.bad('C09.T', mod, func.name, f'{len(aborts)} limit tests in the statement loop prefix',
+                'the statement loop must contain exactly one test of the counter against the limit whose true edge raises, after the increment and before the dispatch', node=loop)
+        return
+    root, r, conds = aborts[0]
+    if inc_stmts and prefix.index(root) > max(prefix.index(s) for s in inc_stmts):
+        chk.ok('C09.D', 'the limit test lies between the increment and the dispatch on every path')
+    else:
+        chk.bad('C09.D', mod, func.name, 'limit test order',
+                'the limit test must come after the increment and before the statement is dispatched (statement L+1 must not start)', node=root)
+    check_test_form(chk, mod, func, loop, root, r, conds, opt, env_at[id(root)])
+
+
+class _Unknown(Exception):
+    pass
+
+
+def _num_eval(e, names, opt, count):
+    """evaluate an integer / boolean expression over sample values"""
+    if isinstance(e, ast.Constant):
+        if e.value is None or isinstance(e.value, (int, float, bool)):
+            return e.value
+        raise _Unknown(norm(e))
+    if isinstance(e, ast.Name):
+        if e.id in names:
+            return names[e.id]
+        raise _Unknown(e.id)
+    if isinstance(e, ast.Subscript):
+        sk = subscript_key(e)
+        if sk and sk[1] == KEY and norm(sk[0]) == opt:
+            return count
+        raise _Unknown(norm(e))
+    if isinstance(e, ast.BoolOp):
+        val = None
+        for v in e.values:
+            val = _num_eval(v, names, opt, count)
+            if isinstance(e.op, ast.And) and not val:
+                return val
+            if isinstance(e.op, ast.Or) and val:
+                return val
+        return val
+    if isinstance(e, ast.UnaryOp) and isinstance(e.op, ast.Not):
+        return not _num_eval(e.operand, names, opt, count)
+    if isinstance(e, ast.UnaryOp) and isinstance(e.op, ast.USub):
+        return -_num_eval(e.operand, names, opt, count)
+    if isinstance(e, ast.BinOp) and isinstance(e.op, (ast.Add, ast.Sub)):
+        a, b = _num_eval(e.left, names, opt, count), _num_eval(e.right, names, opt, count)
+        return a + b if isinstance(e.op, ast.Add) else a - b
+    if isinstance(e, ast.Compare):
+        left = _num_eval(e.left, names, opt, count)
+        for op, c in zip(e.ops, e.comparators):
+            right = _num_eval(c, names, opt, count)
+            if isinstance(op, (ast.Is, ast.IsNot)):
+                r = (left is right) if isinstance(op, ast.Is) else (left is not right)
+            elif left is None or right is None:
+                raise _Unknown('ordering with None')
+            else:
+                r = {ast.Lt: left < right, ast.LtE: left <= right, ast.Gt: left > right, ast.GtE: left >= right, ast.Eq: left == right, ast.NotEq: left != right}.get(type(op))
+                if r is None:
+                    raise _Unknown(norm(e))
+            if not r:
+                return False
+            left = right
+        return True
+    raise _Unknown(norm(e)[:60])
+
+
+def check_test_form(chk, mod, func, loop, test, raise_stmt, conds, opt, env_state):
+    env, stored = env_state
     # the limit variable
     limit_var = None
     limit_def = None
@@ -155,35 +265,44 @@ def check_test_form(chk, mod, func, loop, test, opt):
             chk.bad('C09.T', mod, func.name, norm(v), f'the default statement limit is {default!r}: it must be a positive number, otherwise scripts are unlimited by default', node=v)
     else:
         chk.bad('C09.T', mod, func.name, norm(v), "the limit must come from options.get('maxStatements', DEFAULT_MAX_STATEMENTS) of this run's options", node=v)
-    count_txt = f"{opt}['{KEY}']"
-    rows = []
-    bad = []
-    for limit_pos in (False, True):
-        for rel in ('lt', 'eq', 'gt'):
-            got = eval_limit_test(test.test, count_txt, limit_var, limit_pos, rel)
-            want = limit_pos and rel == 'gt'
-            rows.append((limit_pos, rel, got))
-            if got is None:
-                raise Unrecognised('C09.T', f'abort condition not understood: {norm(test.test)}', mod.rel)
+    # locals assigned inside the abort test (e.g. a hoisted count read) extend the environment
+    inner_env = dict(env)
+    for n in ast.walk(test):
+        if isinstance(n, ast.Assign) and len(n.targets) == 1 and isinstance(n.targets[0], ast.Name):
+            inner_env[n.targets[0].id] = _count_expr(n.value, inner_env, opt, stored)
+    rows, bad = [], []
+    L = 3
+    for limit in (0, L):
+        for rel, count in (('lt', L - 1), ('eq', L), ('gt', L + 1)):
+            c0 = count - 1
+            names = {limit_var: limit}
+            for k, val in inner_env.items():
+                if isinstance(val, tuple):
+                    names[k] = c0 + val[1]
+            try:
+                got = all(bool(_num_eval(t, names, opt, count)) == pol for t, pol in conds)
+            except _Unknown as exc:
+                raise Unrecognised('C09.T', f'abort condition not understood ({exc}): {" and ".join(norm(t) for t, _p in conds)}', mod.rel)
+            want = limit > 0 and rel == 'gt'
+            rows.append((limit > 0, rel, got))
             if got != want:
-                bad.append((limit_pos, rel, got))
+                bad.append((limit > 0, rel, got))
+    cond_text = ' and '.join(('' if pol else 'not ') + norm(t) for t, pol in reversed(conds))
     if bad:
         desc = '; '.join(f"limit {'> 0' if lp else '= 0'}, count {dict(lt='<', eq='=', gt='>')[r]} limit -> {'abort' if g else 'continue'}" for lp, r, g in bad)
-        chk.bad('C09.T', mod, func.name, norm(test.test),
+        chk.bad('C09.T', mod, func.name, cond_text,
                 f'the abort condition must hold exactly when limit > 0 and count > limit (statement L+1 is the first to abort; 0 means unlimited); wrong cases: {desc}',
                 node=test)
     else:
         for lp, r, g in rows:
             chk.ok('C09.T', f"abort test: limit {'> 0' if lp else '= 0'}, count {dict(lt='<', eq='=', gt='>')[r]} limit -> {'abort' if g else 'continue'}")
-    raises = [s for s in test.body if isinstance(s, ast.Raise)]
-    r = raises[0]
-    exc = r.exc
+    exc = raise_stmt.exc
     name = call_name(exc) if isinstance(exc, ast.Call) else None
     msg = norm(exc.args[0]) if isinstance(exc, ast.Call) and exc.args else ''
     if name == 'BareScriptRuntimeError' and 'Exceeded maximum script statements' in msg:
         chk.ok('C09.T', 'abort raises BareScriptRuntimeError("Exceeded maximum script statements ...")')
     else:
-        chk.bad('C09.T', mod, func.name, norm(r), 'exceeding the budget must raise BareScriptRuntimeError with the "Exceeded maximum script statements" message', node=r)
+        chk.bad('C09.T', mod, func.name, norm(raise_stmt), 'exceeding the budget must raise BareScriptRuntimeError with the "Exceeded maximum script statements" message', node=raise_stmt)
     # C09.R: who reads the limit
     reads = [n for n in walk_no_nested(func) if isinstance(n, ast.Name) and n.id == limit_var and isinstance(n.ctx, ast.Load)]
     outside = [n for n in reads if not _inside(n, test)]
@@ -269,12 +388,14 @@ def check_stores(chk):
             n += 1
             where = f'{modname}.{fname}: {norm(stmt)[:90]}'
             if kind == 'aug':
-                if (modname, fname) == ('runtime', '_execute_script_helper'):
+                if (modname, fname) == ('runtime', '_execute_script_helper') and (id(stmt) in getattr(chk, 'c09_inc_stores', ()) or not hasattr(chk, 'c09_inc_stores')):
                     chk.ok('C09.W', where + ' (the per-statement increment)')
                 else:
                     chk.bad('C09.W', mod, fname, norm(stmt), 'the statement counter is modified outside the statement loop', node=stmt)
             elif kind == 'assign':
-                if isinstance(rhs, ast.Constant) and rhs.value == 0 and (modname, fname) == ('runtime', 'execute_script'):
+                if id(stmt) in getattr(chk, 'c09_inc_stores', ()):
+                    chk.ok('C09.W', where + ' (the per-statement increment, validated by C09.D)')
+                elif isinstance(rhs, ast.Constant) and rhs.value == 0 and (modname, fname) == ('runtime', 'execute_script'):
                     chk.ok('C09.W', where + ' (reset at run entry)')
                 elif isinstance(rhs, ast.Subscript) and subscript_key(rhs) and subscript_key(rhs)[1] == KEY and norm(subscript_key(rhs)[0]) != base:
                     chk.ok('C09.W', where + ' (write-back from a copy)')
@@ -307,6 +428,38 @@ def _is_copy_expr(e, opt_names):
     return False
 
 
+def _helper_result(mod, call, opt_names):
+    """call of a module-level helper that returns its options argument or a copy of it -> 'copy' | 'alias' | None"""
+    if not (isinstance(call, ast.Call) and isinstance(call.func, ast.Name) and call.func.id in mod.funcs):
+        return None
+    h = mod.funcs[call.func.id]
+    hp = [a.arg for a in h.args.args]
+    passed = {hp[i] for i, a in enumerate(call.args[:len(hp)]) if norm(a) in opt_names}
+    if not passed:
+        return None
+    local_copies = set()
+    for n in walk_no_nested(h):
+        if isinstance(n, ast.Assign) and len(n.targets) == 1 and isinstance(n.targets[0], ast.Name) and _is_copy_expr(n.value, passed | local_copies):
+            local_copies.add(n.targets[0].id)
+    kinds = set()
+    for n in walk_no_nested(h):
+        if isinstance(n, ast.Return) and n.value is not None:
+            t = norm(n.value)
+            if t in passed:
+                kinds.add('alias')
+            elif t in local_copies or _is_copy_expr(n.value, passed):
+                kinds.add('copy')
+            elif isinstance(n.value, ast.Dict) and all(k is not None for k in n.value.keys):
+                kinds.add('fresh')
+            else:
+                return None
+    if 'copy' in kinds:
+        return 'copy'
+    if kinds == {'alias'}:
+        return 'alias'
+    return None
+
+
 def check_identity(chk):
     helpers = writeback_helpers(chk.repo)
     n_sites = 0
@@ -328,6 +481,8 @@ def check_identity(chk):
                         copies[t] = 'copy' if copies.get(t) != 'alias' else 'alias-or-copy'
                     elif norm(n.value) == opt:
                         copies[t] = 'alias' if t not in copies else 'alias-or-copy'
+                    elif _helper_result(mod, n.value, {opt} | set(copies)):
+                        copies[t] = _helper_result(mod, n.value, {opt} | set(copies))
             evaluator_aliases = {n.targets[0].id for n in walk_no_nested(func) if isinstance(n, ast.Assign) and isinstance(n.targets[0], ast.Name)
                                  and isinstance(n.value, ast.Call) and call_name(n.value) == '_import_evaluate_expression'}
             exec_calls = []
@@ -357,6 +512,8 @@ def check_identity(chk):
                     chk.ok('C09.I', f'{modname}.{fname}: {norm(call)[:70]} (no options: no budget to account)', trivial=True)
                 elif isinstance(arg, ast.Dict):
                     chk.ok('C09.I', f'{modname}.{fname}: {norm(call)[:70]} starts a run with fresh options', trivial=True)
+                elif isinstance(arg, ast.Name) and any(isinstance(n, ast.Assign) and isinstance(n.value, ast.Call) and any(isinstance(t, ast.Name) and t.id == at for t in n.targets) for n in walk_no_nested(func)):
+                    chk.unrec('C09.I', f'{modname}.{fname}: {norm(call)[:70]} receives {at}, produced by a call that is not understood', mod.rel)
                 else:
                     chk.bad('C09.I', mod, fname, norm(call)[:100], f'a statement-executing call receives {at}, which is neither the run\'s options object nor a tracked copy', node=call)
             # mixing copy and original while a copy with write-back is live (between its creation and the write-back)
@@ -460,6 +617,73 @@ def check_handler_order(chk):
             f.rule = 'C09.H'
 
 
+def _exec_closure(repo):
+    """(module, function) pairs that can (transitively, through resolved bare-name calls) execute statements"""
+    mods = [repo.module(m) for m in ('runtime', 'data', 'library', 'value', 'model', 'options') if repo.has_module(m)] if hasattr(repo, 'has_module') else \
+        [repo.module(m) for m in ('runtime', 'data', 'library', 'value', 'model', 'options')]
+    reach = {('runtime', f) for f in ('evaluate_expression', '_execute_script_helper', 'execute_script', '_script_function')}
+    changed = True
+    while changed:
+        changed = False
+        for mod in mods:
+            for fname, func in mod.funcs.items():
+                if (mod.name, fname) in reach:
+                    continue
+                for n in walk_no_nested(func):
+                    if isinstance(n, ast.Call) and isinstance(n.func, ast.Name):
+                        res = repo.resolve_function(mod, n.func.id)
+                        if res and (res[0].name, res[1].name) in reach:
+                            reach.add((mod.name, fname))
+                            changed = True
+                            break
+    return mods, reach
+
+
+def check_no_swallow(chk):
+    """C09.H: the statement-limit error (a BareScriptRuntimeError) raised below a try must not be absorbed by a handler"""
+    from ..raises import handler_names, handler_reraises
+    mods, reach = _exec_closure(chk.repo)
+    n = 0
+    for mod in mods:
+        for fname, func in mod.funcs.items():
+            params = {a.arg for a in func.args.args}
+            aliases = {t.id for x in walk_no_nested(func) if isinstance(x, ast.Assign) and isinstance(x.value, ast.Call) and call_name(x.value) == '_import_evaluate_expression'
+                       for t in x.targets if isinstance(t, ast.Name)}
+            for tr in [x for x in ast.walk(func) if isinstance(x, ast.Try) and x.handlers]:
+                execs = []
+                for st in tr.body:
+                    for c in ast.walk(st):
+                        if not isinstance(c, ast.Call):
+                            continue
+                        if isinstance(c.func, ast.Name):
+                            res = chk.repo.resolve_function(mod, c.func.id)
+                            if c.func.id in aliases or (res and (res[0].name, res[1].name) in reach):
+                                execs.append(c)
+                            elif res is None and c.func.id not in ('len', 'int', 'float', 'str', 'isinstance', 'range', 'min', 'max') and len(c.args) == 2 \
+                                    and isinstance(c.args[1], ast.Name) and c.args[1].id in ({'options', 'eval_options'} | {p for p in params if 'options' in p}):
+                                execs.append(c)      # function value called with (args, options)
+                if not execs:
+                    continue
+                n += 1
+                verdict = None
+                for h in tr.handlers:
+                    names = handler_names(h)
+                    if names is None or names & {'Exception', 'BaseException', 'BareScriptRuntimeError'}:
+                        verdict = (h, handler_reraises(h) or all(isinstance(s, ast.Raise) for s in h.body[-1:]) and isinstance(h.body[-1], ast.Raise))
+                        break
+                if verdict is None:
+                    chk.ok('C09.H', f'{mod.name}.{fname}: try around {norm(execs[0])[:50]} has no handler that can catch the statement-limit error')
+                elif verdict[1]:
+                    chk.ok('C09.H', f'{mod.name}.{fname}: the first handler matching BareScriptRuntimeError around {norm(execs[0])[:50]} re-raises')
+                else:
+                    h = verdict[0]
+                    chk.bad('C09.H', mod, fname, f'except {norm(h.type) if h.type is not None else "(bare)"} around {norm(execs[0])[:70]}',
+                            'this handler absorbs BareScriptRuntimeError raised while statements execute below it: after "Exceeded maximum script statements" the run continues '
+                            '(later statements start beyond the limit, and the run may complete)', node=h)
+    if n < 1:
+        raise Unrecognised('C09.H', 'no try block around a statement-executing call found', None)
+
+
 def run(chk):
     chk.rule('C09.D', 'increment (+1, read-modify-write on the shared dict) and limit test dominate the dispatch', floor=3)
     chk.rule('C09.T', 'abort condition = (limit > 0 and count > limit) over 6 abstract cases; error class/message; positive default', floor=8)
@@ -474,3 +698,4 @@ def run(chk):
     chk.guard('C09.I', check_identity, chk)
     chk.guard('C09.I', check_callbacks, chk)
     chk.guard('C09.H', check_handler_order, chk)
+    chk.guard('C09.H', check_no_swallow, chk)
